@@ -278,7 +278,7 @@ type readerPlan struct {
 }
 
 func smallFrame(blockSum, contentSum bool, nblocks int, legacy bool) (frame, content []byte) {
-	fp := ref.FramePlan{BSCode: 4, Indep: true, BlockSum: blockSum, ContentSum: contentSum, SumOverDecoded: true, Legacy: legacy}
+	fp := ref.FramePlan{BSCode: 4, Indep: true, BlockSum: blockSum, ContentSum: contentSum, Legacy: legacy}
 	for i := 0; i < nblocks; i++ {
 		lit := payload(byte('a'+i*5), 9+i*7)
 		if i%2 == 1 {
@@ -475,7 +475,7 @@ func c08Scenarios(thorough bool) []*Scenario {
 	R(&readerPlan{Name: "R1c3", Conc: 3, Frame: f3, Content: c3, BufSize: 16})
 	R(&readerPlan{Name: "R2", Conc: 2, Frame: f3, Content: c3, WriteTo: true})
 	// R3: block j corrupted
-	p3, _ := ref.Parse(f3, ref.Opts{SumOverDecoded: true})
+	p3, _ := ref.Parse(f3, ref.Opts{})
 	for j := 0; j < 3; j++ {
 		for _, kind := range []string{"bsum", "bdata", "bsize"} {
 			for _, wt := range []bool{false, true} {
